@@ -358,6 +358,22 @@ def pred_view(ev, tree, v):
             return "attribute %s of the view is not the parent's values at rows %r in parent order" % (name, idx)
     if v.size != len(idx):
         return "size %d of the view differs from the number of selected rows %d" % (v.size, len(idx))
+    # attributes DERIVED from the per-experiment ones must be those of the selected rows too (a view class that
+    # overrides one of them with a shortcut - e.g. looking at the first selected row only - breaks "reports the parent's
+    # values at the selected rows")
+    pm = [bool(sn["observation_mask"][i]) for i in idx]
+    derived = [("is_observed", lambda: bool(v.is_observed), all(pm)),
+               ("n_unique_samples", lambda: int(v.n_unique_samples), len({int(sn["sample_ids"][i]) for i in idx})),
+               ("unique_sample_ids", lambda: [int(x) for x in v.unique_sample_ids], sorted({int(sn["sample_ids"][i]) for i in idx})),
+               ("unique_plate_ids", lambda: [int(x) for x in v.unique_plate_ids], sorted({int(sn["plate_ids"][i]) for i in idx})),
+               ("n_plates", lambda: int(v.n_plates), len({int(sn["plate_ids"][i]) for i in idx}))]
+    for name, get, want in derived:
+        try:
+            got = get()
+        except Exception as e:      # noqa: BLE001
+            return "derived attribute %s of the view raises %s" % (name, type(e).__name__)
+        if got != want:
+            return "derived attribute %s of the view is %r, the selected rows %r give %r" % (name, got, idx, want)
     # single_treatment_effects is a per-experiment attribute too: a view reports the PARENT's array at its rows
     # (what the parent's array is belongs to C20); an exception / None of the parent is the view's too
     def ste(x):
